@@ -436,4 +436,407 @@ theorem setIndexed_spec (q : Q) (o : Opts) (st : Nat) (now : Int) (hw : WF q) :
       · intro h; exact ⟨h, fun e => hn1 (e ▸ h)⟩
       · exact fun h => h.1
 
+/-! ### Pop -/
+
+theorem length_pos_of_not_isEmpty {l : List Nat} (h : ¬ l.isEmpty = true) : 0 < l.length := by
+  cases l with
+  | nil => simp at h
+  | cons a r => simp
+
+theorem pop_empty (q : Q) (h : q.pq.isEmpty = true) : pop q = (q, none) := by
+  unfold pop; rw [if_pos h]
+
+theorem pop_nonempty (q : Q) (h : q.pq.isEmpty = false) :
+    pop q = (modify (hpop q).1 (hpop q).2 (fun x => { x with date := tEpoch }),
+      some ((itemD (hpop q).1 (hpop q).2).opts, (itemD (hpop q).1 (hpop q).2).date)) := by
+  unfold pop; rw [if_neg (by rw [h]; exact Bool.false_ne_true)]
+
+theorem pop_spec (q : Q) (hw : WF q) :
+    WF (pop q).1 ∧ (∀ b, tracked (pop q).1 b = tracked q b) ∧
+    ((pop q).2 = none ↔ q.pq = []) ∧
+    (∀ o d, (pop q).2 = some (o, d) →
+      ∃ a, InPq q.pq a ∧ (itemD q a).opts = o ∧ (itemD q a).date = d ∧
+        (∀ b, InPq q.pq b → lessPrio (itemD q b) (itemD q a) = false) ∧
+        (∀ b, InPq (pop q).1.pq b ↔ InPq q.pq b ∧ b ≠ a)) ∧
+    (∀ b, (itemD (pop q).1 b).untl = (itemD q b).untl) ∧
+    (pop q).1.dur = q.dur ∧ (pop q).1.maxB = q.maxB := by
+  cases he : q.pq.isEmpty
+  case true =>
+    rw [pop_empty q he]
+    have : q.pq = [] := by simpa using he
+    refine ⟨hw, fun _ => rfl, by simp [this], ?_, fun _ => rfl, rfl, rfl⟩
+    intro o d h; cases h
+  case false =>
+    rw [pop_nonempty q he]
+    have hpos := length_pos_of_not_isEmpty (l := q.pq) (by rw [he]; exact Bool.false_ne_true)
+    have hp := hpop_wf q hw hpos
+    let g : Item → Item := fun x => { x with date := tEpoch }
+    have gid : ∀ x, (g x).id = x.id := fun _ => rfl
+    have gidx : ∀ x, (g x).heapIdx = x.heapIdx := fun _ => rfl
+    have hnin : ¬ InPq (hpop q).1.pq (hpop q).2 := fun h => ((hp.2.2.2.1 _).mp h).2 rfl
+    have hw' := wf_modify_off hp.1 (hpop q).2 g gid gidx hnin
+    show WF (modify (hpop q).1 (hpop q).2 g) ∧ (∀ b, tracked (modify (hpop q).1 (hpop q).2 g) b = tracked q b) ∧ _
+    refine ⟨hw', ?_, ?_, ?_, ?_, hp.2.1.dur, hp.2.1.maxB⟩
+    · intro b; rw [tracked_modify _ _ _ _ gid, hp.2.1.tr]
+    · constructor
+      · intro h; cases h
+      · intro h; rw [h] at hpos; simp at hpos
+    · intro o d h
+      injection h with h
+      injection h with h1 h2
+      refine ⟨(hpop q).2, ?_, ?_, ?_, ?_, ?_⟩
+      · rw [hp.2.2.1]; exact ⟨0, hpos, rfl⟩
+      · rw [← h1]; exact (hp.2.1.opts _).symm
+      · rw [← h2]; have := congrArg Item.date (hp.2.1.it (hpop q).2); exact this.symm
+      · rintro b ⟨k, hk, e⟩
+        have := hp.2.2.2.2.1 k hk
+        rw [e] at this; exact this
+      · intro b; exact hp.2.2.2.1 b
+    · intro b
+      show (itemD (modify (hpop q).1 (hpop q).2 g) b).untl = _
+      by_cases hb : b = (hpop q).2
+      · rw [hb, itemD_modify_same _ _ _ gid (by rw [hp.2.1.tr]; exact (idx_of_inPq hw.1 _ (by rw [hp.2.2.1]; exact ⟨0, hpos, rfl⟩)).1)]
+        exact hp.2.1.untl _
+      · rw [itemD_modify_other _ _ _ _ gid hb]; exact hp.2.1.untl _
+
+/-! ### Bump -/
+
+def bumpStep (now : Int) (acc : Q × List Nat) (id : Nat) : Q × List Nat :=
+  if !tracked acc.1 id then (acc.1, acc.2 ++ [id])
+  else if (itemD acc.1 id).heapIdx < 0 then (enqueue acc.1 id now, acc.2)
+  else acc
+
+theorem bump_eq (q : Q) (ids : List Nat) (now : Int) : bump q ids now = ids.foldl (bumpStep now) (q, []) := rfl
+
+theorem neg_iff_not_inPq {q : Q} (hc : Cons q) (a : Nat) (ht : tracked q a = true) : (itemD q a).heapIdx < 0 ↔ ¬ InPq q.pq a := by
+  constructor
+  · exact not_inPq_of_neg hc a
+  · intro hn; rw [hc.off a ht hn]; omega
+
+theorem bump_fold (q0 : Q) (now : Int) (ids : List Nat) (acc : Q × List Nat) (done : List Nat)
+    (hw : WF acc.1) (htr : ∀ b, tracked acc.1 b = tracked q0 b) (hu : ∀ b, (itemD acc.1 b).untl = (itemD q0 b).untl)
+    (hin : ∀ b, InPq acc.1.pq b ↔ InPq q0.pq b ∨ (b ∈ done ∧ tracked q0 b = true ∧ (itemD q0 b).untl < now))
+    (hmiss : acc.2 = done.filter fun id => !tracked q0 id) (hd : acc.1.dur = q0.dur ∧ acc.1.maxB = q0.maxB) :
+    let r := ids.foldl (bumpStep now) acc
+    WF r.1 ∧ (∀ b, tracked r.1 b = tracked q0 b) ∧ (∀ b, (itemD r.1 b).untl = (itemD q0 b).untl) ∧
+      (∀ b, InPq r.1.pq b ↔ InPq q0.pq b ∨ (b ∈ done ++ ids ∧ tracked q0 b = true ∧ (itemD q0 b).untl < now)) ∧
+      r.2 = (done ++ ids).filter (fun id => !tracked q0 id) ∧ r.1.dur = q0.dur ∧ r.1.maxB = q0.maxB := by
+  induction ids generalizing acc done with
+  | nil => simp only [List.foldl_nil, List.append_nil]; exact ⟨hw, htr, hu, hin, hmiss, hd.1, hd.2⟩
+  | cons id rest ih =>
+    simp only [List.foldl_cons]
+    have happ : done ++ id :: rest = (done ++ [id]) ++ rest := by simp
+    rw [happ]
+    apply ih (bumpStep now acc id) (done ++ [id])
+    all_goals unfold bumpStep
+    all_goals by_cases ht : tracked acc.1 id = true
+    all_goals by_cases hneg : (itemD acc.1 id).heapIdx < 0
+    all_goals simp only [ht, hneg, Bool.not_true, Bool.not_false, if_true, if_false, Bool.false_eq_true]
+    -- tracked, not queued: enqueue
+    · exact (enqueue_spec acc.1 id now hw ht hneg).1
+    · exact hw
+    · exact hw
+    · exact hw
+    · intro b; rw [(enqueue_spec acc.1 id now hw ht hneg).2.1, htr]
+    · exact htr
+    · exact htr
+    · exact htr
+    · intro b; rw [(enqueue_spec acc.1 id now hw ht hneg).2.2.2.1, hu]
+    · exact hu
+    · exact hu
+    · exact hu
+    · intro b
+      rw [(enqueue_spec acc.1 id now hw ht hneg).2.2.1 b, hin b, hu id]
+      rw [htr] at ht
+      constructor
+      · rintro ((h | ⟨h1, h2⟩) | ⟨h1, h2⟩)
+        · exact Or.inl h
+        · exact Or.inr ⟨by simp [h1], h2⟩
+        · subst h1; exact Or.inr ⟨by simp, ht, h2⟩
+      · rintro (h | ⟨h1, h2, h3⟩)
+        · exact Or.inl (Or.inl h)
+        · rcases List.mem_append.mp h1 with h1 | h1
+          · exact Or.inl (Or.inr ⟨h1, h2, h3⟩)
+          · simp only [List.mem_singleton] at h1; subst h1; exact Or.inr ⟨rfl, h3⟩
+    · -- tracked and already queued
+      intro b
+      rw [hin b]
+      have hq : InPq acc.1.pq id := by
+        by_cases h : InPq acc.1.pq id
+        · exact h
+        · exact absurd ((neg_iff_not_inPq hw.1 id ht).mpr h) hneg
+      constructor
+      · rintro (h | ⟨h1, h2⟩)
+        · exact Or.inl h
+        · exact Or.inr ⟨by simp [h1], h2⟩
+      · rintro (h | ⟨h1, h2, h3⟩)
+        · exact Or.inl h
+        · rcases List.mem_append.mp h1 with h1 | h1
+          · exact Or.inr ⟨h1, h2, h3⟩
+          · simp only [List.mem_singleton] at h1; subst h1
+            exact (hin b).mp hq
+    · intro b
+      rw [hin b]
+      have : tracked q0 id = false := by rw [← htr]; simpa using ht
+      constructor
+      · rintro (h | ⟨h1, h2⟩)
+        · exact Or.inl h
+        · exact Or.inr ⟨by simp [h1], h2⟩
+      · rintro (h | ⟨h1, h2, h3⟩)
+        · exact Or.inl h
+        · rcases List.mem_append.mp h1 with h1 | h1
+          · exact Or.inr ⟨h1, h2, h3⟩
+          · simp only [List.mem_singleton] at h1; subst h1; rw [this] at h2; cases h2
+    · intro b
+      rw [hin b]
+      have : tracked q0 id = false := by rw [← htr]; simpa using ht
+      constructor
+      · rintro (h | ⟨h1, h2⟩)
+        · exact Or.inl h
+        · exact Or.inr ⟨by simp [h1], h2⟩
+      · rintro (h | ⟨h1, h2, h3⟩)
+        · exact Or.inl h
+        · rcases List.mem_append.mp h1 with h1 | h1
+          · exact Or.inr ⟨h1, h2, h3⟩
+          · simp only [List.mem_singleton] at h1; subst h1; rw [this] at h2; cases h2
+    · rw [hmiss, List.filter_append]; rw [htr] at ht; simp [ht]
+    · rw [hmiss, List.filter_append]; rw [htr] at ht; simp [ht]
+    · have : tracked q0 id = false := by rw [← htr]; simpa using ht
+      rw [hmiss, List.filter_append]; simp [this]
+    · have : tracked q0 id = false := by rw [← htr]; simpa using ht
+      rw [hmiss, List.filter_append]; simp [this]
+    · have he := enqueue_spec acc.1 id now hw ht hneg
+      exact ⟨he.2.2.2.2.2.1.trans hd.1, he.2.2.2.2.2.2.1.trans hd.2⟩
+    · exact hd
+    · exact hd
+    · exact hd
+
+theorem bump_spec (q : Q) (ids : List Nat) (now : Int) (hw : WF q) :
+    WF (bump q ids now).1 ∧ (∀ b, tracked (bump q ids now).1 b = tracked q b) ∧
+      (∀ b, (itemD (bump q ids now).1 b).untl = (itemD q b).untl) ∧
+      (∀ b, InPq (bump q ids now).1.pq b ↔ InPq q.pq b ∨ (b ∈ ids ∧ tracked q b = true ∧ (itemD q b).untl < now)) ∧
+      (bump q ids now).2 = ids.filter (fun id => !tracked q id) ∧
+      (bump q ids now).1.dur = q.dur ∧ (bump q ids now).1.maxB = q.maxB := by
+  rw [bump_eq]
+  have := bump_fold q now ids (q, []) [] hw (fun _ => rfl) (fun _ => rfl) (fun b => by simp) rfl ⟨rfl, rfl⟩
+  simpa using this
+
+/-! ### MaybeRemoveMissing -/
+
+theorem find_filter_ne (l : List Item) (a b : Nat) :
+    find (l.filter fun x => x.id ≠ a) b = if b = a then none else find l b := by
+  induction l with
+  | nil => simp [find]
+  | cons y r ih =>
+    by_cases hy : y.id = a
+    · have : (List.filter (fun x => decide (x.id ≠ a)) (y :: r)) = List.filter (fun x => decide (x.id ≠ a)) r := by
+        simp [List.filter, hy]
+      rw [this, ih]
+      simp only [find]
+      by_cases hb : b = a
+      · simp [hb]
+      · have : ¬ y.id = b := fun e => hb (e ▸ hy)
+        simp [hb, this]
+    · have : (List.filter (fun x => decide (x.id ≠ a)) (y :: r)) = y :: List.filter (fun x => decide (x.id ≠ a)) r := by
+        simp [List.filter, hy]
+      rw [this]
+      simp only [find]
+      by_cases hyb : y.id = b
+      · have : ¬ b = a := fun e => hy (hyb.trans e)
+        simp [hyb, this]
+      · simp only [hyb, if_false]; exact ih
+
+/-- dropping the map entry of an id that is not queued -/
+theorem wf_delete {q : Q} (hw : WF q) (a : Nat) (hn : ¬ InPq q.pq a) :
+    let q' : Q := { q with items := q.items.filter fun x => x.id ≠ a }
+    WF q' ∧ (∀ b, tracked q' b = (tracked q b && b != a)) ∧ (∀ b, b ≠ a → itemD q' b = itemD q b) := by
+  intro q'
+  have hf : ∀ b, find q'.items b = if b = a then none else find q.items b := fun b => find_filter_ne q.items a b
+  have hit : ∀ b, b ≠ a → itemD q' b = itemD q b := by
+    intro b hb; simp only [itemD, hf, hb, if_false]
+  have htr : ∀ b, tracked q' b = (tracked q b && b != a) := by
+    intro b
+    simp only [tracked, hf]
+    by_cases hb : b = a
+    · simp [hb]
+    · simp [hb]
+  have hne : ∀ k, k < q.pq.length → at_ q.pq k ≠ a := fun k hk e => hn ⟨k, hk, e⟩
+  refine ⟨⟨⟨hw.1.inj, ?_, ?_, ?_⟩, ?_⟩, htr, hit⟩
+  · show ((q.items.filter fun x => x.id ≠ a).map (·.id)).Nodup
+    exact (List.filter_sublist.map _).nodup hw.1.keys
+  · intro i hi
+    have := hw.1.slot i hi
+    show tracked q' (at_ q.pq i) = true ∧ (itemD q' (at_ q.pq i)).heapIdx = _
+    rw [htr, hit _ (hne i hi)]
+    exact ⟨by simp [this.1, hne i hi], this.2⟩
+  · intro b hb hnb
+    rw [htr] at hb
+    simp only [Bool.and_eq_true, bne_iff_ne, ne_eq] at hb
+    rw [hit b hb.2]
+    exact hw.1.off b hb.1 hnb
+  · apply heapN_congr_on _ hw.2
+    intro k k' hk hk'
+    show lessId q' (at_ q.pq k) (at_ q.pq k') = _
+    simp only [lessId, hit _ (hne k hk), hit _ (hne k' hk')]
+
+theorem removeOne_spec (q : Q) (a : Nat) (hw : WF q) :
+    WF (removeOne q a) ∧ (∀ b, tracked (removeOne q a) b = (tracked q b && b != a)) ∧
+      (∀ b, InPq (removeOne q a).pq b ↔ InPq q.pq b ∧ b ≠ a) ∧
+      (∀ b, b ≠ a → setIdx 0 (itemD (removeOne q a) b) = setIdx 0 (itemD q b)) ∧
+      (removeOne q a).dur = q.dur ∧ (removeOne q a).maxB = q.maxB ∧ (removeOne q a).seq = q.seq := by
+  unfold removeOne
+  by_cases hq : (itemD q a).heapIdx ≥ 0
+  · simp only [hq, if_true]
+    have ht : tracked q a = true := by
+      cases ht : tracked q a
+      · have : itemD q a = newItem a := by
+          simp only [tracked] at ht
+          cases hf : find q.items a <;> simp_all [itemD]
+        rw [this] at hq; simp [newItem] at hq
+      · rfl
+    have hs := slot_of_idx hw.1 a ht hq
+    have hr := hremove_wf q _ hw.1 hs.1 (lessId q) (lessId_swo q) hw.2 (fun _ _ _ _ => rfl)
+    rw [hs.2] at hr
+    have hn : ¬ InPq (hremove q (itemD q a).heapIdx.toNat).1.pq a := fun h => ((hr.2.2.2.1 a).mp h).2 rfl
+    have hd := wf_delete hr.1 a hn
+    simp only [] at hd
+    refine ⟨hd.1, ?_, ?_, ?_, hr.2.1.dur, hr.2.1.maxB, hr.2.1.seq⟩
+    · intro b; rw [hd.2.1 b, hr.2.1.tr]
+    · intro b; exact hr.2.2.2.1 b
+    · intro b hb; rw [hd.2.2 b hb]; exact hr.2.1.it b
+  · simp only [hq, if_false]
+    have hn : ¬ InPq q.pq a := fun h => hq (idx_of_inPq hw.1 a h).2
+    have hd := wf_delete hw a hn
+    simp only [] at hd
+    refine ⟨hd.1, hd.2.1, ?_, ?_, by first | rfl | trivial, by first | rfl | trivial, by first | rfl | trivial⟩
+    · intro b
+      show InPq q.pq b ↔ _
+      exact ⟨fun h => ⟨h, fun e => hn (e ▸ h)⟩, fun h => h.1⟩
+    · intro b hb; rw [hd.2.2 b hb]
+
+theorem removeFold_spec (gone : List Nat) (q : Q) (hw : WF q) :
+    WF (gone.foldl removeOne q) ∧ (∀ b, tracked (gone.foldl removeOne q) b = (tracked q b && !gone.contains b)) ∧
+      (∀ b, InPq (gone.foldl removeOne q).pq b ↔ InPq q.pq b ∧ ¬ b ∈ gone) ∧
+      (∀ b, ¬ b ∈ gone → setIdx 0 (itemD (gone.foldl removeOne q) b) = setIdx 0 (itemD q b)) ∧
+      (gone.foldl removeOne q).dur = q.dur ∧ (gone.foldl removeOne q).maxB = q.maxB ∧ (gone.foldl removeOne q).seq = q.seq := by
+  induction gone generalizing q with
+  | nil => exact ⟨hw, by simp, by simp, fun _ _ => rfl, rfl, rfl, rfl⟩
+  | cons a r ih =>
+    simp only [List.foldl_cons]
+    have h1 := removeOne_spec q a hw
+    have h2 := ih (removeOne q a) h1.1
+    refine ⟨h2.1, ?_, ?_, ?_, h2.2.2.2.2.1.trans h1.2.2.2.2.1, h2.2.2.2.2.2.1.trans h1.2.2.2.2.2.1, h2.2.2.2.2.2.2.trans h1.2.2.2.2.2.2⟩
+    · intro b
+      rw [h2.2.1 b, h1.2.1 b, List.contains_cons]
+      cases tracked q b <;> cases hb : (b == a) <;> cases r.contains b <;> simp [bne, hb]
+    · intro b
+      rw [h2.2.2.1 b, h1.2.2.1 b]
+      simp only [List.mem_cons, not_or]
+      constructor
+      · rintro ⟨⟨h1, h2⟩, h3⟩; exact ⟨h1, h2, h3⟩
+      · rintro ⟨h1, h2, h3⟩; exact ⟨⟨h1, h2⟩, h3⟩
+    · intro b hb
+      simp only [List.mem_cons, not_or] at hb
+      rw [h2.2.2.2.1 b hb.2, h1.2.2.2.1 b hb.1]
+
+theorem tracked_iff_mem (q : Q) (b : Nat) : tracked q b = true ↔ b ∈ q.items.map (·.id) := by
+  simp only [tracked]
+  constructor
+  · intro h
+    cases hf : find q.items b with
+    | none => rw [hf] at h; cases h
+    | some x => exact List.mem_map.mpr ⟨x, find_some_mem hf, find_some_id hf⟩
+  · intro h
+    cases hf : find q.items b with
+    | none =>
+      obtain ⟨x, hx, e⟩ := List.mem_map.mp h
+      exact absurd e (find_none_iff.mp hf x hx)
+    | some x => rfl
+
+/-- `MaybeRemoveMissing`: when it runs (sizes differ) the queue afterwards tracks exactly the tracked ids that are in
+    `ids`, reports exactly the others, and no removed id stays queued -/
+theorem removeMissing_spec (q : Q) (ids : List Nat) (hw : WF q) :
+    WF (removeMissing q ids).1 ∧
+    (q.items.length = ids.length → (removeMissing q ids) = (q, [])) ∧
+    (q.items.length ≠ ids.length →
+      (∀ b, tracked (removeMissing q ids).1 b = (tracked q b && ids.contains b)) ∧
+      (∀ b, b ∈ (removeMissing q ids).2 ↔ tracked q b = true ∧ ids.contains b = false) ∧
+      (∀ b, InPq (removeMissing q ids).1.pq b ↔ InPq q.pq b ∧ ids.contains b = true) ∧
+      (∀ b, ids.contains b = true → setIdx 0 (itemD (removeMissing q ids).1 b) = setIdx 0 (itemD q b))) ∧
+    (∀ b, tracked (removeMissing q ids).1 b = true → (itemD (removeMissing q ids).1 b).untl = (itemD q b).untl) ∧
+    (removeMissing q ids).1.dur = q.dur ∧ (removeMissing q ids).1.maxB = q.maxB := by
+  unfold removeMissing
+  by_cases hlen : q.items.length = ids.length
+  · simp only [hlen, if_true]
+    exact ⟨hw, fun _ => trivial, fun h => absurd rfl h, fun _ _ => by first | rfl | trivial, by first | rfl | trivial, by first | rfl | trivial⟩
+  · simp only [hlen, if_false]
+    have hf := removeFold_spec ((q.items.map (·.id)).filter fun id => !ids.contains id) q hw
+    have hmem : ∀ b, b ∈ (q.items.map (·.id)).filter (fun id => !ids.contains id) ↔ tracked q b = true ∧ ids.contains b = false := by
+      intro b
+      rw [List.mem_filter, ← tracked_iff_mem]
+      simp
+    have htr : ∀ b, tracked (List.foldl removeOne q ((q.items.map (·.id)).filter fun id => !ids.contains id)) b = (tracked q b && ids.contains b) := by
+      intro b
+      rw [hf.2.1 b]
+      cases ht : tracked q b
+      · simp
+      · simp only [Bool.true_and]
+        cases hc : ids.contains b
+        · have hm : b ∈ (q.items.map (·.id)).filter (fun id => !ids.contains id) := (hmem b).mpr ⟨ht, hc⟩
+          have : ((q.items.map (·.id)).filter (fun id => !ids.contains id)).contains b = true := by simpa using hm
+          rw [this]; rfl
+        · have hm : ¬ b ∈ (q.items.map (·.id)).filter (fun id => !ids.contains id) := fun h => by
+            have := ((hmem b).mp h).2; rw [hc] at this; cases this
+          have : ((q.items.map (·.id)).filter (fun id => !ids.contains id)).contains b = false := by
+            cases hcc : ((q.items.map (·.id)).filter (fun id => !ids.contains id)).contains b
+            · rfl
+            · exact absurd (by simpa using hcc) hm
+          rw [this]; rfl
+    refine ⟨hf.1, fun h => False.elim h, fun _ => ⟨htr, hmem, ?_, ?_⟩, ?_, hf.2.2.2.2.1, hf.2.2.2.2.2.1⟩
+    · intro b
+      rw [hf.2.2.1 b, hmem b]
+      constructor
+      · rintro ⟨h1, h2⟩
+        refine ⟨h1, ?_⟩
+        cases hc : ids.contains b
+        · exact absurd ⟨(idx_of_inPq hw.1 b h1).1, hc⟩ h2
+        · rfl
+      · rintro ⟨h1, h2⟩
+        exact ⟨h1, fun h => by rw [h2] at h; cases h.2⟩
+    · intro b hb
+      apply hf.2.2.2.1 b
+      rw [hmem b]; intro h; rw [hb] at h; cases h.2
+    · intro b hb
+      rw [htr b] at hb
+      simp only [Bool.and_eq_true] at hb
+      have := hf.2.2.2.1 b (by rw [hmem b]; intro h; rw [hb.2] at h; cases h.2)
+      exact (congrArg Item.untl this : _)
+
+/-! ### all operations -/
+
+theorem wf_newQ (d m : Int) : WF (newQ d m) := by
+  have : ∀ q : Q, q.items = [] → q.pq = [] → WF q := by
+    intro q h1 h2
+    refine ⟨⟨?_, ?_, ?_, ?_⟩, ?_⟩
+    · intro i j hi; rw [h2] at hi; simp at hi
+    · rw [h1]; simp
+    · intro i hi; rw [h2] at hi; simp at hi
+    · intro a ht; simp [tracked, h1, find] at ht
+    · intro k _ hk; rw [h2] at hk; simp at hk
+  unfold newQ
+  split <;> exact this _ rfl rfl
+
+theorem wf_step (q : Q) (op : Op) (hw : WF q) : WF (step q op) := by
+  cases op with
+  | add o now => exact (addOrUpdate_spec q o now hw).1
+  | idx o st now => exact (setIndexed_spec q o st now hw).1
+  | pop => exact (pop_spec q hw).1
+  | bump ids now => exact (bump_spec q ids now hw).1
+  | rm ids => exact (removeMissing_spec q ids hw).1
+
+theorem wf_run (q : Q) (ops : List Op) (hw : WF q) : WF (run q ops) := by
+  induction ops generalizing q with
+  | nil => exact hw
+  | cons op r ih => exact ih (step q op) (wf_step q op hw)
+
 end ZoektModel.C30
